@@ -52,7 +52,13 @@ pub fn run_c05(cx: &Ctx) -> i32 {
     let space = unr_space(k);
     let alphabet = vec!['a', 'é', '€', '😀', '\n'];
     let max_len = if cx.quick() { 3 } else { 3 };
-    let texts = space::texts(&alphabet, max_len);
+    let mut texts = space::texts(&alphabet, max_len);
+    // a few long regular texts: many loop iterations (long undo logs, deep branch stacks)
+    for n in [19usize, 24, 40] {
+        texts.push("a".repeat(n));
+        texts.push(format!("{}é", "a".repeat(n)));
+        texts.push(format!("😀{}", "a".repeat(n)));
+    }
     let tallies = par::run_workers(32, |_w, claimer| {
         engine::quiet_panics();
         engine::set_sweep_horizons(40_000, 2_000);
